@@ -30,7 +30,7 @@ import (
 	"sync"
 )
 
-var benignCorpora = []string{"refactors", "refactors2", "refactors3", "refactors4", "refactors5", "tiny", "tiny2"}
+var benignCorpora = []string{"refactors", "refactors2", "refactors3", "refactors4", "refactors5", "refactors6", "tiny", "tiny2"}
 
 type corpusResult struct {
 	SeedsTried, SeedsCaught, SeedsSkipped    int
